@@ -197,6 +197,9 @@ def discharge(check_id, job, pr, out, replay_kind, describe=None, timeout_ms=400
                 out.d["notes"].append({"obligation": name, "info": info})
                 break
             # sat: replay on the real code
+            if out.d.get("unreproduced_budget", 0) >= 3:
+                verdict = "unreproduced"   # this job already showed models that do not replay; do not burn time on more
+                break
             tries += 1
             rk = meta.get("replay", replay_kind)
             inputs = dict(model)
@@ -236,7 +239,9 @@ def discharge(check_id, job, pr, out, replay_kind, describe=None, timeout_ms=400
                 verdict = "unreproduced"
                 break
             blocked.append(z3.Or(*lits))
-        if verdict == "unreproduced" and not meta.get("no_ladder"):
+        if verdict == "unreproduced":
+            out.d["unreproduced_budget"] = out.d.get("unreproduced_budget", 0) + 1
+        if verdict == "unreproduced" and not meta.get("no_ladder") and out.d.get("unreproduced_budget", 0) <= 1:
             # solver said sat on an abstraction, the model does not replay: walk the concretisation ladder
             rk = meta.get("replay", replay_kind)
             hit = run_ladder(check_id, rk, job)
@@ -268,6 +273,8 @@ def discharge(check_id, job, pr, out, replay_kind, describe=None, timeout_ms=400
         elif verdict in ("unknown", "unreproduced"):
             out.d["unknown"] += 1
             out.d["inconclusive"].append({"obligation": name, "why": verdict, "path": pr.index, "job": job})
+            if out.d.get("unreproduced_budget", 0) >= 6:
+                raise symx.Stop()   # the job is inconclusive anyway
 
 
 # --------------------------------------------------------------------------
